@@ -423,3 +423,171 @@ Proof.
   split; [apply inv_inside; assumption|apply inv_ends; assumption].
 Qed.
 End Rec.
+
+(* ================= a recursion call gives back exactly what its site expects ================= *)
+Definition bottom_is (X : fk) (s : shape) : Prop := exists fr, frames s = fr ++ [X].
+
+Lemma bottom_cons (X Y : fk) (f : list fk) : (exists fr, f = fr ++ [X]) -> exists fr, Y :: f = fr ++ [X].
+Proof. intros [fr ->]. exists (Y :: fr). reflexivity. Qed.
+
+Lemma bottom_tail (X Y : fk) (f : list fk) : Y <> X -> (exists fr, Y :: f = fr ++ [X]) -> exists fr, f = fr ++ [X].
+Proof.
+  intros Hne [fr H]. destruct fr as [|a fr]; cbn in H.
+  - inversion H. congruence.
+  - inversion H. eauto.
+Qed.
+
+(* no instruction but the return touches the frame an activation was entered with *)
+Lemma edges_bottom i pc s ts rc : edges i pc s = Some ts -> ret_of i s = None ->
+  bottom_is (FLoop (Some rc)) s -> forall t, In t ts -> bottom_is (FLoop (Some rc)) (snd t).
+Proof.
+  unfold bottom_is. destruct s as [f c a k x]. cbn [frames].
+  intros He Hr Hb t Ht.
+  destruct i; cbn [edges frames caps aes stk ext with_stk with_frames] in He.
+  - destruct (popV pops k); [|discriminate]. inversion He; subst. destruct Ht as [<-|[]]. exact Hb.
+  - inversion He; subst. destruct Ht as [<-|[]]. exact Hb.
+  - destruct (popV n k); [|discriminate]. inversion He; subst. destruct Ht as [<-|[]]. exact Hb.
+  - destruct k as [|[|] k]; try discriminate. inversion He; subst. destruct Ht as [<-|[]]. exact Hb.
+  - destruct k as [|[|] [|[|] k]]; try discriminate; inversion He; subst; destruct Ht as [<-|[]]; exact Hb.
+  - destruct k as [|[|] [|[|] k]]; try discriminate; inversion He; subst; destruct Ht as [<-|[]]; exact Hb.
+  - inversion He; subst. destruct Ht as [<-|[]]. cbn [snd frames]. apply bottom_cons. exact Hb.
+  - destruct f as [|[|] f]; try discriminate. inversion He; subst. destruct Ht as [<-|[]]. cbn [snd frames].
+    eapply bottom_tail; [|exact Hb]. discriminate.
+  - destruct k as [|[|] k]; try discriminate. inversion He; subst. destruct Ht as [<-|[]]. cbn [snd frames]. apply bottom_cons. exact Hb.
+  - destruct f as [|[|[rc'|]] f]; try discriminate.   (* the returning frame: excluded by Hr *)
+    inversion He; subst. destruct Ht as [<-|[]]. cbn [snd frames]. eapply bottom_tail; [|exact Hb]. discriminate.
+  - destruct (has_loop f); [|discriminate]. inversion He; subst. destruct Ht as [<-|[<-|[]]]; exact Hb.
+  - destruct (has_loop f); [|discriminate]. inversion He; subst. destruct Ht as [<-|[]]. exact Hb.
+  - inversion He; subst. destruct Ht as [<-|[]]. exact Hb.
+  - destruct k as [|[|] k]; try discriminate. inversion He; subst. destruct Ht as [<-|[<-|[]]]; exact Hb.
+  - destruct k as [|[|] k]; try discriminate. inversion He; subst. destruct Ht as [<-|[<-|[]]]; exact Hb.
+  - destruct k as [|[|] k]; try discriminate. inversion He; subst. destruct Ht as [<-|[]]. exact Hb.
+  - destruct a as [|a]; try discriminate. inversion He; subst. destruct Ht as [<-|[]]. exact Hb.
+  - inversion He; subst. destruct Ht as [<-|[]]. exact Hb.
+  - destruct c as [|c]; try discriminate. inversion He; subst. destruct Ht as [<-|[]]. exact Hb.
+  - inversion He; subst. destruct Ht.
+  - destruct dyn; destruct k as [|[|] k]; try discriminate; inversion He; subst; destruct Ht as [<-|[]]; exact Hb.
+  - destruct k as [|[|] k]; try discriminate. inversion He; subst. destruct Ht as [<-|[]]. exact Hb.
+  - destruct k as [|[|] k]; try discriminate. destruct x; inversion He; subst; [destruct Ht|]. destruct Ht as [<-|[]]. exact Hb.
+Qed.
+
+Section Restore.
+Variable C : list instr.
+Variable Am : ann.
+Variable Ar : list ann.
+Variable entries : list (nat * shape).
+Hypothesis Hchk : check_rec C Am Ar entries = true.
+
+(* configurations inside the evaluation of ONE call: the activation it started on top of [B]
+   (which returns to r), or activations nested in it *)
+Inductive inside (B : shape) (r : nat) (cap : bool) : nat * shape -> Prop :=
+| in_top p A pc rel :
+    In ((p, (r, cap)), A) (combine (regions C) Ar) ->
+    good C A (Some (r, cap)) (pc, rel) -> bottom_is (FLoop (Some (r, cap))) rel ->
+    inside B r cap (pc, lift B rel)
+| in_nested p rc A pc rel base :
+    In ((p, rc), A) (combine (regions C) Ar) ->
+    good C A (Some rc) (pc, rel) -> bottom_is (FLoop (Some rc)) rel ->
+    inside B r cap (fst rc, lift base (ret_rel (snd rc))) ->
+    inside B r cap (pc, lift base rel).
+
+Lemma inside_deeper B r cap c : inside B r cap c -> length (frames B) < length (frames (snd c)).
+Proof.
+  induction 1 as [p A pc rel HA Hg [fr Hb]|p rc A pc rel base HA Hg [fr Hb] Hin IH]; cbn [snd lift frames] in *.
+  - rewrite Hb, !app_length. cbn. lia.
+  - rewrite Hb, !app_length. cbn in *. lia.
+Qed.
+
+Lemma reg_entry_bottom r cap : bottom_is (FLoop (Some (r, cap))) (reg_entry r cap).
+Proof. exists []. reflexivity. Qed.
+
+(* a nested call from inside *)
+Lemma inside_call B r cap i pc s cp k p base :
+  nth_error C pc = Some i -> call_arg i s = Some (cp, k) -> In p (rec_targets C) ->
+  inside B r cap (S pc, lift base (lift (with_stk s k) (ret_rel cp))) ->
+  inside B r cap (S p, lift base (lift (with_stk s k) (reg_entry (S pc) cp))).
+Proof.
+  intros Hi Hc Hp Hret.
+  assert (Hs : In (S pc, cp) (call_sites C)) by (apply (sites_from_in C 0 pc i Hi s cp k Hc)).
+  assert (Hr : In (p, (S pc, cp)) (regions C)) by (apply in_prod; assumption).
+  destruct (combine_In_l (regions C) Ar _ (Hnum C Am Ar entries Hchk) Hr) as [A HA].
+  rewrite lift_assoc. eapply (in_nested B r cap p (S pc, cp) A); [exact HA| | |].
+  - eapply entry_good; [apply (Hreg C Am Ar entries Hchk _ _ _ HA)|left; reflexivity].
+  - apply reg_entry_bottom.
+  - cbn [fst snd]. rewrite <- lift_assoc. exact Hret.
+Qed.
+
+(* one step from inside: still inside, or the call has returned - to its site, with the caller's
+   frames, captures, auto-escape entries and operands, plus the call's value *)
+Lemma inside_step B r cap c c' : inside B r cap c -> rstep C c c' ->
+  inside B r cap c' \/ c' = (r, lift B (ret_rel cap)).
+Proof.
+  intros Hin. revert c'. induction Hin as [p A pc rel HA Hg Hb|p rc A pc rel base HA Hg Hb Hret IH]; intros c' Hs.
+  - inversion Hs as [pc0 s i ts t Hi He Ht]; subst.
+    destruct (good_at C A (Some (r, cap)) _ (Hreg C Am Ar entries Hchk _ _ _ HA) pc rel i Hg Hi) as (ts0 & He0 & H).
+    destruct (edges_lift _ _ B _ _ He0) as (ts' & He' & Hsub). rewrite He' in He. inversion He; subst ts.
+    rewrite (call_edges_lift C _ _ B _ _ He0) in Ht.
+    apply in_app_or in Ht as [Ht|Ht].
+    + apply Hsub in Ht. apply in_map_iff in Ht as ([pc1 s1] & <- & Ht). unfold lift_t. cbn [fst snd].
+      destruct (ret_of i rel) as [rc'|] eqn:Er.
+      * destruct H as [Hm ->]. inversion Hm; subst rc'. destruct Ht as [Ht|[]]. inversion Ht; subst. right. reflexivity.
+      * destruct H as [Hts _]. left. eapply in_top; [exact HA|apply Hts; assumption|].
+        exact (edges_bottom _ _ _ _ _ He0 Er Hb _ Ht).
+    + apply in_map_iff in Ht as ([pc1 s1] & <- & Ht). unfold lift_t. cbn [fst snd].
+      unfold call_edges in Ht. destruct (call_arg i rel) as [[cp k]|] eqn:Hc; [|destruct Ht].
+      apply in_map_iff in Ht as (q & Hq1 & Hq). inversion Hq1; subst pc1 s1.
+      left. eapply inside_call; eauto.
+      pose proof (call_summary i pc rel cp k Hc) as Hsum. rewrite He0 in Hsum. inversion Hsum; subst ts0.
+      assert (Hr : ret_of i rel = None).
+      { unfold ret_of. destruct i; try reflexivity. discriminate Hc. }
+      rewrite Hr in H. destruct H as [Hts _].
+      eapply in_top; [exact HA|apply Hts; left; reflexivity|].
+      exact (edges_bottom _ _ _ _ _ He0 Hr Hb _ (or_introl eq_refl)).
+  - inversion Hs as [pc0 s i ts t Hi He Ht]; subst.
+    destruct (good_at C A (Some rc) _ (Hreg C Am Ar entries Hchk _ _ _ HA) pc rel i Hg Hi) as (ts0 & He0 & H).
+    destruct (edges_lift _ _ base _ _ He0) as (ts' & He' & Hsub). rewrite He' in He. inversion He; subst ts.
+    rewrite (call_edges_lift C _ _ base _ _ He0) in Ht.
+    apply in_app_or in Ht as [Ht|Ht].
+    + apply Hsub in Ht. apply in_map_iff in Ht as ([pc1 s1] & <- & Ht). unfold lift_t. cbn [fst snd].
+      destruct (ret_of i rel) as [rc'|] eqn:Er.
+      * destruct H as [Hm ->]. inversion Hm; subst rc'. destruct Ht as [Ht|[]]. inversion Ht; subst. left. exact Hret.
+      * destruct H as [Hts _]. left. eapply in_nested; [exact HA|apply Hts; assumption| |exact Hret].
+        exact (edges_bottom _ _ _ _ _ He0 Er Hb _ Ht).
+    + apply in_map_iff in Ht as ([pc1 s1] & <- & Ht). unfold lift_t. cbn [fst snd].
+      unfold call_edges in Ht. destruct (call_arg i rel) as [[cp k]|] eqn:Hc; [|destruct Ht].
+      apply in_map_iff in Ht as (q & Hq1 & Hq). inversion Hq1; subst pc1 s1.
+      left. eapply inside_call; eauto.
+      pose proof (call_summary i pc rel cp k Hc) as Hsum. rewrite He0 in Hsum. inversion Hsum; subst ts0.
+      assert (Hr : ret_of i rel = None).
+      { unfold ret_of. destruct i; try reflexivity. discriminate Hc. }
+      rewrite Hr in H. destruct H as [Hts _].
+      eapply in_nested; [exact HA|apply Hts; left; reflexivity| |exact Hret].
+      exact (edges_bottom _ _ _ _ _ He0 Hr Hb _ (or_introl eq_refl)).
+Qed.
+
+Lemma above_inside B r cap a c : inside B r cap a -> rstar_above C (length (frames B)) a c -> inside B r cap c.
+Proof.
+  intros Ha Hst. induction Hst as [c Hc|a b c Hab IH Hbc Hc].
+  - assumption.
+  - destruct (inside_step B r cap b c (IH Ha) Hbc) as [H|H]; [assumption|].
+    subst c. cbn [snd lift frames ret_rel app] in Hc. lia.
+Qed.
+
+Theorem rec_call_restores_proof pc s i cap k p u d :
+  nth_error C pc = Some i -> call_arg i s = Some (cap, k) -> In p (rec_targets C) ->
+  rstar_above C (length (frames s)) (S p, lift (with_stk s k) (reg_entry (S pc) cap)) u ->
+  rstep C u d -> length (frames (snd d)) <= length (frames s) ->
+  d = (S pc, lift (with_stk s k) (ret_rel cap)).
+Proof.
+  intros Hi Hc Hp Hst Hstep Hlen.
+  assert (Hs : In (S pc, cap) (call_sites C)) by (apply (sites_from_in C 0 pc i Hi s cap k Hc)).
+  assert (Hr : In (p, (S pc, cap)) (regions C)) by (apply in_prod; assumption).
+  destruct (combine_In_l (regions C) Ar _ (Hnum C Am Ar entries Hchk) Hr) as [A HA].
+  assert (H0 : inside (with_stk s k) (S pc) cap (S p, lift (with_stk s k) (reg_entry (S pc) cap))).
+  { eapply in_top; [exact HA| |apply reg_entry_bottom].
+    eapply entry_good; [apply (Hreg C Am Ar entries Hchk _ _ _ HA)|left; reflexivity]. }
+  assert (Hu : inside (with_stk s k) (S pc) cap u) by (eapply above_inside; [exact H0|exact Hst]).
+  destruct (inside_step _ _ _ _ _ Hu Hstep) as [H|H]; [|exact H].
+  apply inside_deeper in H. cbn [with_stk frames] in H. lia.
+Qed.
+End Restore.
